@@ -23,6 +23,7 @@ RULE = (
     'distinct = SHA-1 of (states, n_parts).'
 )
 RULE += ' Added in rounds 6-10: nested splits; re-presented event tables; every Trajectory.split part round-tripped through displacements; objects whose diffusing-species trajectory is not the species filter of the full trajectory.'
+RULE += ' Round 14: a quarter of the Jumps objects are built with a custom conversion rule (single-step moves only); their parts must follow the same rule.'
 ASSUMPTIONS = [
     "Jumps.split / rates raising ValueError('No jumps found') is accepted iff no jump of the whole lies completely inside some part's time bin (documented API behaviour)",
     'Trajectory.split without equal_parts is taken to tile the source without gaps; at most one trailing frame may stay unused (the implementation drops the last frame)',
@@ -372,8 +373,24 @@ def run_unit(unit, rng, ctx):
         residence = int(rng.choice([0, 0, 2, 4]))
         default_settings = f == 1.0 and residence == 0
         ctx.count(f'minimal_residence:{residence}')
+        custom_rule = unit.get('i', 0) % 4 == 2
         try:
-            j = tr.jumps(minimal_residence=residence)
+            if custom_rule:
+                # a Jumps object built with the caller's own conversion rule (documented argument): only moves that
+                # take a single step count; its parts are classified by the same rule
+                from gemdat.jumps import Jumps, _generic_transitions_to_jumps
+
+                def direct_only(transitions, minimal_residence=0):
+                    df = _generic_transitions_to_jumps(transitions, minimal_residence=minimal_residence)
+                    return df[df['stop time'] - df['start time'] == 1].reset_index(drop=True)
+
+                j = Jumps(tr, conversion_method=direct_only, minimal_residence=residence)
+                default_settings = False
+                ctx.count('jumps_objects_with_a_custom_conversion_rule')
+                if len(j.data) == 0:
+                    j = None
+            else:
+                j = tr.jumps(minimal_residence=residence)
         except ValueError as exc:
             if 'No jumps found' not in str(exc):
                 raise
